@@ -24,6 +24,17 @@ INPUTS = [b"call StrLen and strlen plus WriteFile writefile [ENTER] [Enter] here
           b"aGVsbG8gd29ybGQgaGVsbG8gd29ybGQgaGVsbG8gd29ybGQ= 10.1.2.3 C:\\Windows\\System32\\kernel32.dll"]
 
 
+def _deep_inputs():
+    """inputs that nest several layers deep (a limit left behind by an earlier scan would truncate them)"""
+    import stacks
+    out = []
+    for names in (["b64", "b64", "b64"], ["unescape", "hex", "atob"], ["xml", "concat", "reverse"], ["carets", "b64"], ["FromBase64String", "utf16", "b64"]):
+        b = stacks.build(stacks.PAYLOADS[0], [stacks.BY_NAME[n] for n in names], b"zz ~ ", b" ~ zz")
+        if b is not None:
+            out.append(b[0])
+    return out
+
+
 def run(ctx):
     trees = [rand_dtree(ctx.rng) for _ in range(ctx.budget(80, 800))]
     for k in range(3):
@@ -31,7 +42,7 @@ def run(ctx):
                     nontrivial=lambda a, o: len(a[0]) + len(a[1]) >= 2,
                     classify=lambda a, o: "shuffled")
     from multidecoder.multidecoder import Multidecoder
-    inputs = list(INPUTS)
+    inputs = list(INPUTS) + _deep_inputs()
     for _ in range(ctx.budget(6, 60)):
         inputs.append(bytes(ctx.rng.choice(b"abcdefgh .:/@-_0123456789\n\"'+=") for _ in range(ctx.rng.randint(0, 100))))
     fresh = [node_val(Multidecoder().scan(d)) for d in inputs]
@@ -66,6 +77,14 @@ def run(ctx):
                 if g != want:
                     ctx.violation("scan-history-depth", [d, k], f"scan(depth={k}) after scans with other depth limits {order} differs from the same scan in a fresh process")
                     break
+    # after explicit limits, a scan that relies on the default depth must be the fresh default scan (no limit may stick to the scanner)
+    for lim in (1, 0, 2, 10):
+        shared.scan(inputs[-1], lim)
+        for i, d in enumerate(inputs):
+            ctx.evals += 1
+            if node_val(shared.scan(d)) != fresh[i]:
+                ctx.violation("scan-history-default-depth", [d, lim], f"default-depth scan after a scan with depth_limit={lim} on the same scanner differs from a fresh scanner")
+                break
     # threads sharing one scanner
     results = [[None] * len(inputs) for _ in range(8)]
 
